@@ -112,7 +112,7 @@ def runCbtf {α : Type} [Inhabited α] [Zero α] [Add α] [Sub α] [Mul α] [Inv
     let r := r' + 1
     let bpos : Fin r → Fin n := posFn n bset.toList r
     some (scs.mapIdx fun j sc =>
-      let o := cbtfColE (fnOfArr M n) (fnOfArr B n) (fnOfArr K n) bpos sc (fun l => a l.1 j)
+      let o := cbtfColE (fnOfArr M n) (fnOfArr B n) (fnOfArr K n) bpos (locFnE bset.toList r) sc (fun l => a l.1 j)
       (Array.ofFn o.frc, Array.ofFn o.a, Array.ofFn o.d, Array.ofFn o.v))
   | n' + 1, r' + 1, nq' + 1 =>
     let n := n' + 1
@@ -137,7 +137,7 @@ def runAmpvF (n : Nat) (M B K : Array Cx) (bset : Array Nat) (freq : Array Float
     let r := r' + 1
     let bpos : Fin r → Fin n := posFn n bset.toList r
     let ms := freq.map fun f =>
-      let am := calcAMpvColE (fnOfArr M n) (fnOfArr B n) (fnOfArr K n) bpos (scOfFreq f)
+      let am := calcAMpvColE (fnOfArr M n) (fnOfArr B n) (fnOfArr K n) bpos (locFnE bset.toList r) (scOfFreq f)
       CMat.ofFn r r fun i k => if h : i < r ∧ k < r then am ⟨i, h.1⟩ ⟨k, h.2⟩ else Cx.zero
     some (pack3 r freq.size ms)
   | n' + 1, r' + 1, nq' + 1 =>
